@@ -159,7 +159,10 @@ U.fn(CTX, 'IndexCtx::resolve_id', tags='C05', prologue='proof { ax_into_sym(); }
      ensures=[C('ret == resolve_spec(self.scopes.all(), &self.symbol_map, *name)', 'C05', name='a name resolves to the innermost local declaration; global defs are consulted last')])
 U.fn(CTX, 'IndexCtx::resolve_id_in_current_scope', requires=[C('frames(self).len() > 0', 'C03')])
 U.fn(CTX, 'IndexCtx::error', requires=[C('old(self).file_trace@.len() > 0', 'C03', name='error() needs a current file')],
-     ensures=['final(self).scopes == old(self).scopes', 'final(self).file_trace == old(self).file_trace', 'final(self).indexed_files == old(self).indexed_files'])
+     ensures=['final(self).scopes == old(self).scopes', 'final(self).file_trace == old(self).file_trace', 'final(self).indexed_files == old(self).indexed_files',
+              C('final(self).diagnostics@.len() == old(self).diagnostics@.len() + 1 && final(self).diagnostics@.last().location == (FileRange { file: old(self).file_trace@.last(), range: range })'
+                ' && forall|i: int| 0 <= i < old(self).diagnostics@.len() ==> final(self).diagnostics@[i] == old(self).diagnostics@[i]', 'C17',
+                name='a diagnostic is recorded with the given range in the file on top of the include stack; earlier diagnostics are kept')])
 U.fn(CTX, 'IndexCtx::next_anonymous_def_name', attrs=['external_body'],
      ensures=['final(self).scopes == old(self).scopes', 'final(self).file_trace == old(self).file_trace', 'final(self).indexed_files == old(self).indexed_files'])
 
@@ -215,7 +218,9 @@ U.fn(I, 'check_template_args', attrs=['exec_allows_no_decreases_clause'], **FRAM
               ],
      loops={0: dict(invariant=LOOPINV + ['enum_pos(&__it0) <= enum_total(&__it0)', C('enum_total(&__it0) <= template_args@.len()', 'C03', name='positional arguments are looked up only below the number of declared template arguments')]),
             1: dict(invariant=LOOPINV)})
-U.fn(I, 'identifier', rename={'identifier': 'ident_'}, **FRAME)   # mod utils
+U.fn(I, 'identifier', rename={'identifier': 'ident_'}, requires=FRAME['requires'],
+     ensures=FRAME['ensures'] + [C('ret matches Some(p) ==> ident_text(ident_) == Some(p.0) && ident_range(ident_) == Some(p.1.range) && p.1.file == old(ctx).file_trace@.last()', 'C17 C06',
+                                   name='an identifier\'s name and range come from its own token, paired with the file on top of the include stack')])   # mod utils
 
 # ----------------------------------------------------------------------------- C03 mechanism 2: no record becomes its own parent
 # (a parent class must already exist when it is named, so the only cycle the indexer could build is the self reference)
